@@ -48,8 +48,14 @@ func getTypeInfo(t reflect.Type) *theTypeInfo {
 	}
 
 	// Publish
+	// (the first one published stays: type infos are compared by identity to detect cycles, and a
+	// generator that already holds the first one must not meet a second one for the same type)
 	typeInfosMutex.Lock()
-	typeInfos[t] = typeInfo
+	if published, ok := typeInfos[t]; ok {
+		typeInfo = published
+	} else {
+		typeInfos[t] = typeInfo
+	}
 	typeInfosMutex.Unlock()
 	return typeInfo
 }
